@@ -254,40 +254,43 @@ def B1(inp, kind, k, first=None):
 
 
 @obligation('B2', props=('C15', 'C09'), quick=[dict(kind=k) for k in ('list', 'dict', 'set', 'counter', 'queue', 'pqueue', 'lock')],
-            stubs=('none',), bounds='contents of <=2 symbolic elements per battery')
+            stubs=('none',), bounds='source contents of 0..2 symbolic elements (empty and zero included), target battery holding 0..2 stale elements')
 def B2(inp, kind):
-    """consumer snapshot round trip: _deserialize(_serialize(x)) on a fresh battery gives equal contents and the
-    snapshot never contains the constructor-time attributes (the back-pointer to the SyncObj)."""
+    """consumer snapshot round trip: _deserialize(_serialize(x)) into a battery that already holds other (stale) contents
+    makes it equal to x - also when x is empty / zero; the snapshot never contains the back-pointer to the SyncObj."""
+    def fill(z, tag, n):
+        for j in range(n):
+            v = _elt(inp, '%s%d' % (tag, j))
+            if kind == 'list':
+                z.append(v, _doApply=True)
+            elif kind == 'dict':
+                z.set(inp.choice('%sk%d' % (tag, j), 3), v, _doApply=True)
+            elif kind == 'set':
+                z.add(inp.choice('%sk%d' % (tag, j), 3), _doApply=True)
+            elif kind == 'counter':
+                z.add(v, _doApply=True)
+            elif kind == 'lock':
+                z.acquire('l%d' % j, 'c%d' % j, inp.real('%st%d' % (tag, j), 0), _doApply=True)
+            else:
+                z.put(v, _doApply=True)
     if kind == 'lock':
-        b, fresh = bt._ReplLockManagerImpl(10.0), bt._ReplLockManagerImpl(10.0)
-        b.acquire('l1', 'c1', inp.real('t1', 0), _doApply=True)
-        b.acquire('l2', 'c2', inp.real('t2', 0), _doApply=True)
-        cont = lambda z: sorted(z._ReplLockManagerImpl__locks.items())
+        b, target = bt._ReplLockManagerImpl(10.0), bt._ReplLockManagerImpl(10.0)
+        cont = lambda z: sorted((k, list(v)) for k, v in z._ReplLockManagerImpl__locks.items())
     else:
         mk = _KINDS[kind][0]
         b, _ = mk(inp)
-        fresh, _ = mk(core.ConcreteInput({'maxsize': 0}) if kind in ('queue', 'pqueue') else inp)
-        for j in range(2):
-            v = _elt(inp, 'e%d' % j)
-            if kind == 'list':
-                b.append(v, _doApply=True)
-            elif kind == 'dict':
-                b.set(j, v, _doApply=True)
-            elif kind == 'set':
-                b.add(inp.choice('k%d' % j, 3), _doApply=True)
-            elif kind == 'counter':
-                b.add(v, _doApply=True)
-            else:
-                b.put(v, _doApply=True)
-        cont = lambda z: _contents(kind, z)
+        target, _ = mk(core.ConcreteInput({'maxsize': 0}) if kind in ('queue', 'pqueue') else inp)
+        cont = lambda z: [list(x) if isinstance(x, tuple) else x for x in _contents(kind, z)]
+    fill(b, 'e', inp.choice('n_src', 3))
+    fill(target, 's', inp.choice('n_stale', 3))
     b._syncObj = object()
     data = b._serialize()
-    fresh._deserialize(data)
+    target._deserialize(data)
     cl = {}
     cl['no_backpointer_in_snapshot'] = '_syncObj' not in data and not any('properies' in k for k in data)
-    cl['contents_restored'] = _same([list(x) if isinstance(x, tuple) else x for x in cont(fresh)], [list(x) if isinstance(x, tuple) else x for x in cont(b)])
-    cl['fresh_backpointer_untouched'] = fresh._syncObj is None
-    return Res(cl, nontrivial=True, obs=lambda: dict(kind=kind, keys=sorted(data)))
+    cl['contents_restored'] = _same(cont(target), cont(b))
+    cl['target_backpointer_untouched'] = target._syncObj is None
+    return Res(cl, nontrivial=True, obs=lambda: dict(kind=kind, keys=sorted(data), src=show(cont(b)), target=show(cont(target))))
 
 
 # =======================================================================================
@@ -322,12 +325,17 @@ def _lock_cmd(inp, i, impl, upto, fixed=None):
     t = inp.real('t%d' % i)
     inp.assume(t <= upto)
     if op == 'acquire':
-        r = impl.acquire(l, c, t, _doApply=True)
+        r, e = guard(impl.acquire, l, c, t, _doApply=True)
     elif op == 'prolongate':
-        r = impl.prolongate(c, t, _doApply=True)
+        r, e = guard(impl.prolongate, c, t, _doApply=True)
     else:
-        r = impl.release(l, c, _doApply=True)
+        r, e = guard(impl.release, l, c, _doApply=True)
+    if e is not None:
+        EXC.append(e)
     return (op, c, l, t, r)
+
+
+EXC = []
 
 
 @obligation('K1', props=('C16',), quick=[dict(k=1)] + [dict(k=2, first=f) for f in range(18)],
@@ -340,6 +348,7 @@ def K1(inp, k, first=None):
     U = inp.real('U', 0, lo_strict=True)
     now = inp.real('now')
     A, B = bt._ReplLockManagerImpl(U), bt._ReplLockManagerImpl(U)
+    del EXC[:]
     tab = _lock_table(inp, A, now, U)
     B._ReplLockManagerImpl__locks = dict(tab)
     cmdsl = [_lock_cmd(inp, i, B, now, first if i == 0 else None) for i in range(k)]
@@ -354,7 +363,7 @@ def K1(inp, k, first=None):
         for (op2, c2, l2, t2, r2) in cmdsl[:i]:
             if c2 == c and op2 != 'release':
                 inp.assume(t >= t2)
-    cl = {}
+    cl = {'commands_do_not_raise': len(EXC) == 0}
     for l in LOCKS:
         for a in CLIENTS:
             released = any(op == 'release' and c == a and ll == l for op, c, ll, _, _ in cmdsl)
@@ -377,10 +386,13 @@ def K3(inp):
     U = inp.real('U', 0, lo_strict=True)
     now = inp.real('now')
     A = bt._ReplLockManagerImpl(U)
+    del EXC[:]
     tab = _lock_table(inp, A, now, U)
     op, c, l, t, r = _lock_cmd(inp, 0, A, now + 1000)
     post = A._ReplLockManagerImpl__locks
-    cl = {}
+    cl = {'command_does_not_raise': len(EXC) == 0}
+    if EXC:
+        return Res(cl, nontrivial=True, obs=lambda: dict(op=op, client=c, lock=l, exc=show(EXC[0]), table=show(tab)))
     old = tab.get(l)
     if op == 'acquire':
         free = old is None or bool(Or(t - old[1] > U, old[0] == c)) if old is not None else True
@@ -494,3 +506,48 @@ def K2(inp, mode):
     if mode == 'async':
         cl['callback_once'] = len(got) == 1
     return Res(cl, nontrivial=And(answer, late), obs=lambda: dict(mode=mode, answer=answer, res=show(res), calls=show(impl.calls), exc=show(exc)))
+
+
+@obligation('K2b', props=('C16',), quick=[dict()],
+            stubs=('batteries.time=FakeTime (non-decreasing symbolic instants)', 'lock table behind ReplLockManager=_FakeImpl; manager built with object.__new__ (no thread)'),
+            bounds='two overlapping asynchronous tryAcquire calls of one manager on two locks; four symbolic instants')
+def K2b(inp):
+    """overlapping acquisitions of one client: each callback reports True only if *its own* acquisition took at most half
+    the auto-unlock time (attempt times are per call), and a late success releases exactly its own lock."""
+    U = inp.real('U', 0, lo_strict=True)
+    ta1, ta2, tc1, tc2 = (inp.real(n) for n in ('t_attempt1', 't_attempt2', 't_done1', 't_done2'))
+    inp.assume(And(ta2 >= ta1, tc1 >= ta2, tc2 >= tc1))
+    g1, g2 = inp.flag('granted1'), inp.flag('granted2')
+    real_time = bt.time
+    clk = _FakeTime([ta1])
+    bt.time = clk
+    got1, got2 = [], []
+    try:
+        m = object.__new__(bt.ReplLockManager)
+        impl = _FakeImpl(True)
+        m._ReplLockManager__lockImpl = impl
+        m._ReplLockManager__selfID = 'me'
+        m._ReplLockManager__autoUnlockTime = U
+        _, exc = guard(m.tryAcquire, 'L1', callback=lambda r, e: got1.append((r, e)))
+        cb1 = impl.cb
+        clk.instants, clk.i = [ta2], 0
+        if exc is None:
+            _, exc = guard(m.tryAcquire, 'L2', callback=lambda r, e: got2.append((r, e)))
+        cb2 = impl.cb
+        clk.instants, clk.i = [tc1], 0
+        if exc is None:
+            _, exc = guard(cb1, g1, 0)
+        clk.instants, clk.i = [tc2], 0
+        if exc is None:
+            _, exc = guard(cb2, g2, 0)
+    finally:
+        bt.time = real_time
+    rel = [c for c in impl.calls if c[0] == 'release']
+    late1, late2 = tc1 - ta1 > U / 2, tc2 - ta2 > U / 2
+    cl = {'no_exception': exc is None}
+    cl['callbacks_once_each'] = len(got1) == 1 and len(got2) == 1
+    if len(got1) == 1 and len(got2) == 1:
+        cl['first_reports_own_timing'] = Iff(bool(got1[0][0]), And(g1, Not(late1)))
+        cl['second_reports_own_timing'] = Iff(bool(got2[0][0]), And(g2, Not(late2)))
+    cl['late_successes_released'] = And(Iff(any(c[1] == 'L1' for c in rel), And(g1, late1)), Iff(any(c[1] == 'L2' for c in rel), And(g2, late2)))
+    return Res(cl, nontrivial=Or(And(g1, late1), And(g2, late2)), obs=lambda: dict(got1=show(got1), got2=show(got2), calls=show(impl.calls), exc=show(exc)))
